@@ -304,4 +304,58 @@ theorem inputs_sorted (req : List Str) :
     (req.mergeSort Str.le).Perm req ∧ (req.mergeSort Str.le).Pairwise (fun a b => Str.le a b = true) :=
   ⟨List.mergeSort_perm _ _, List.pairwise_mergeSort (fun a b c h1 h2 => Str.le_trans a b c h1 h2) (fun a b => Str.le_total a b) _⟩
 
+/-! ## v1 `Builder` -/
+
+/-- **v1_dependency_not_scanned**: `findTypesIn` of a package that was not requested changes nothing -/
+theorem v1_unrequested_untouched (w : World) (st : LState) (path : Str) (p : GPkg) (hf : w.find path = some p)
+    (hr : st.requested.contains path = false) : findTypesInV1 w st path = some st := by
+  simp only [findTypesInV1, hf, hr, Bool.not_false, if_true]
+
+/-- **v1_requested_scanned**: for a requested package the universe is the result of the full scan of its scope
+(and the request set is unchanged) -/
+theorem v1_requested_scanned (w : World) (st st' : LState) (path : Str) (p : GPkg) (hf : w.find path = some p)
+    (hr : st.requested.contains path = true) (h : findTypesInV1 w st path = some st') :
+    scanPkg w.bt w.facts w.v2 w.fuel st.u p = some st'.u ∧ st'.requested = st.requested := by
+  simp only [findTypesInV1, hf, hr, Bool.not_true, Bool.false_eq_true, if_false] at h
+  cases hs : scanPkg w.bt w.facts w.v2 w.fuel st.u p with
+  | none => simp [hs] at h
+  | some u => simp only [hs, Option.map_some, Option.some.injEq] at h; subst h; exact ⟨rfl, rfl⟩
+
+/-- **v1_missing_is_error**: a package the type checker does not know makes `findTypesIn` fail -/
+theorem v1_missing_is_error (w : World) (st : LState) (path : Str) (hm : w.find path = none) :
+    findTypesInV1 w st path = none := by
+  simp [findTypesInV1, hm]
+
+/-- `findTypesIn` never changes the request set -/
+theorem v1_requested_const (w : World) (st st' : LState) (path : Str) (h : findTypesInV1 w st path = some st') :
+    st'.requested = st.requested := by
+  unfold findTypesInV1 at h
+  cases hf : w.find path with
+  | none => simp [hf] at h
+  | some p =>
+    simp only [hf] at h
+    split at h
+    · cases h; rfl
+    · cases hs : scanPkg w.bt w.facts w.v2 w.fuel st.u p with
+      | none => simp [hs] at h
+      | some u => simp only [hs, Option.map_some, Option.some.injEq] at h; subst h; rfl
+
+/-- **v1_inputs**: after `FindTypes()` the request set is exactly what was requested -/
+theorem v1_findTypes_requested (w : World) (req : List Str) (st : LState) (h : findTypesV1 w req = some st) :
+    st.requested = req := by
+  unfold findTypesV1 at h
+  exact foldl_bind_inv (fun s p => findTypesInV1 w s p) (fun s => s.requested = req)
+    (fun s p s' hs hst => (v1_requested_const w s s' p hst).trans hs) _ _ _ rfl h
+
+/-- **v1_incremental_extends**: `AddDirTo` keeps every earlier request and adds the new one -/
+theorem v1_addDirTo_requested (w : World) (st st' : LState) (path : Str) (h : addDirToV1 w st path = some st') :
+    Sub st.requested st'.requested ∧ path ∈ st'.requested := by
+  unfold addDirToV1 at h
+  have := v1_requested_const w _ st' path h
+  rw [this]
+  by_cases hc : st.requested.contains path = true
+  · simp only [hc, if_true]; exact ⟨Sub.refl _, by simpa using hc⟩
+  · simp only [hc, Bool.false_eq_true, if_false]
+    exact ⟨fun x hx => List.mem_append_left _ hx, by simp⟩
+
 end Gengo.C11
